@@ -53,6 +53,13 @@ pub fn with_mode_variants(trees: Vec<Tree>) -> Vec<Tree> {
             let n = v.nodes.get_mut(&k).unwrap();
             n.mode = if n.is_dir() { 0o700 } else { 0o600 };
             out.push(v);
+            // the sticky bit (setuid/setgid are cleared by the kernel on write and chown, which Memfs does not imitate): both backends store and report it
+            {
+                let mut v = t.clone();
+                let n = v.nodes.get_mut(&k).unwrap();
+                n.mode = if n.is_dir() { 0o1755 } else { 0o1644 };
+                out.push(v);
+            }
             // a file its owner may not write (the kernel enforces this for the uid-1000 workers)
             if t.nodes[&k].is_file() {
                 let mut v = t.clone();
@@ -122,6 +129,11 @@ pub fn alphabet(root_uid: bool) -> Vec<Op> {
         ops.push(Op::ChmodB(s(p), ChmodSel::Dirs(0o711), true, false));
         ops.push(Op::ChmodB(s(p), ChmodSel::Files(0o640), false, true));
         ops.push(Op::ChmodB(s(p), ChmodSel::Readonly, true, false));
+        // symbolic forms through followed links, and an octal value with a special bit
+        ops.push(Op::ChmodB(s(p), ChmodSel::Sym(s("f:g+w,d:o-x")), true, true));
+        ops.push(Op::ChmodB(s(p), ChmodSel::Readonly, true, true));
+        ops.push(Op::ChmodB(s(p), ChmodSel::Secure, false, true));
+        ops.push(Op::Chmod(s(p), 0o1750));
         if root_uid {
             ops.push(Op::Chown(s(p), 5, 6));
             ops.push(Op::ChownB(s(p), Some(7), None, false, false));
